@@ -23,7 +23,9 @@ VARIANTS = [
 RULE = ("cases = (source kind: DatasetSource / UnionDatasetSource with 1-3 members, LatestOnly per member, batch size 1..5, "
         "history of source batches (re-writes of the same id, deletes, un-deletes, equal-JSON-length pairs), foreign writes to the "
         "sink dataset, and job runs (incremental / fullsync) each with a scripted fault: sink error / source (ReadEntities) error / sink commit then death / "
-        "kill after a page / death at hook pipeline.beforeToken / pipeline.afterToken at page index i); fault positions are "
+        "kill after a page / death at hook pipeline.beforeToken / pipeline.afterToken at page index i / sink rejecting one entity), "
+        "deleting and re-creating the sink dataset between runs of the SAME job objects (built once by Scheduler.verify + "
+        "toTriggeredJobs), reQueue / reRun error handlers on the triggers; fault positions are "
         "enumerated over every page index of fixed histories plus PRNG histories; a case is non-trivial when some fault fired or a "
         "run needed >= 2 pages; distinct = distinct case tuples")
 TRUSTED = [
@@ -45,9 +47,11 @@ ASSUMPTIONS = [
 ]
 EXHAUSTIVE = {"thorough": False}
 
-FAULTS = ["sinkfail", "sinkpanic", "kill", "diebefore", "dieafter", "srcfail"]
+FAULTS = ["sinkfail", "sinkpanic", "kill", "diebefore", "dieafter", "srcfail", "sinkreject"]
 FAULT_COQ = {"none": "FNone", "sinkfail": "FSinkFail", "sinkpanic": "FSinkPanic", "kill": "FKill",
-             "diebefore": "FDieBefore", "dieafter": "FDieAfter", "srcfail": "FSrcFail"}
+             "diebefore": "FDieBefore", "dieafter": "FDieAfter", "srcfail": "FSrcFail", "sinkreject": "FSinkReject"}
+HANDLER_COQ = {"requeue": "HReQueue", "rerun": "HReRun"}
+HANDLER_SETS = [[], [], ["requeue"], ["rerun"], ["requeue", "rerun"]]
 OUTCOME = {"ok": 0, "failed": 1, "died": 2}
 
 
@@ -63,8 +67,12 @@ def R(full=False, fault="none", at=0):
     return {"op": "run", "full": full, "fault": fault, "at": at}
 
 
-def mk(ops, batch=2, los=(False,), union=False):
-    return {"members": len(los), "union": union, "los": list(los), "batch": batch, "ops": ops}
+DROP = {"op": "drop"}
+CREATE = {"op": "create"}
+
+
+def mk(ops, batch=2, los=(False,), union=False, handlers=()):
+    return {"members": len(los), "union": union, "los": list(los), "batch": batch, "handlers": list(handlers), "ops": ops}
 
 
 def witness_cases():
@@ -88,6 +96,22 @@ def witness_cases():
             R(True, "srcfail", 1), R(), R()], batch=2),
         mk([W(0, [(1, 1, 0, 0), (2, 1, 0, 0)]), W(1, [(11, 1, 0, 0), (12, 1, 0, 0)]), R(), W(1, [(13, 1, 0, 0)]),
             R(True, "srcfail", 0), R(), R(True, "sinkfail", 1), R()], batch=1, los=(False, True), union=True),
+        # the sink dataset is deleted (and re-created) between runs of the same job objects: a run without a sink must
+        # not move the token, the sink is found by name again, a completed fullsync converges into the NEW dataset
+        mk([W(0, [(1, 1, 0, 0), (2, 1, 0, 0), (3, 1, 0, 0)]), R(), dict(DROP), W(0, [(4, 1, 0, 0), (5, 1, 0, 0)]), R(),
+            dict(CREATE), R(), R(True), R()], batch=2),
+        mk([W(0, [(1, 1, 0, 0), (2, 1, 0, 0)]), R(True), dict(DROP), R(True), dict(CREATE), W(0, [(3, 1, 0, 0)]), R(True), R()],
+           batch=1, los=(True,)),
+        mk([W(0, [(1, 1, 0, 0)]), W(1, [(11, 1, 0, 0)]), R(), dict(DROP), dict(CREATE), W(1, [(12, 1, 0, 0)]), R(), R(True), R()],
+           batch=2, los=(False, False), union=True),
+        # a sink that rejects one entity, with reQueue / reRun error handlers on the triggers: the run fails and the token
+        # stays behind the rejected entity; the next healthy run delivers it
+        mk([W(0, [(1, 1, 0, 0), (2, 1, 0, 0), (3, 1, 0, 0), (4, 1, 0, 0), (5, 1, 0, 0)]), R(False, "sinkreject", 3), R(), R()],
+           batch=2, handlers=("requeue",)),
+        mk([W(0, [(1, 1, 0, 0), (2, 1, 0, 0), (3, 1, 0, 0), (4, 1, 0, 0), (5, 1, 0, 0)]), R(True, "sinkreject", 3), R(), R()],
+           batch=2, handlers=("requeue", "rerun")),
+        mk([W(0, [(1, 1, 0, 0), (2, 1, 0, 0)]), W(1, [(11, 1, 0, 0), (12, 1, 0, 0)]), R(False, "sinkreject", 11), R(True), R()],
+           batch=3, los=(False, True), union=True, handlers=("rerun",)),
         # plain behaviour: death between sink write and token store, then recovery and a no-op run
         mk([W(0, [(1, 1, 0, 0), (2, 2, 0, 0), (3, 3, 0, 0)]), R(), W(0, [(1, 4, 0, 0)]), R(False, "diebefore", 0), R(), R()]),
         mk([W(0, [(1, 1, 0, 0), (2, 2, 0, 0), (3, 3, 0, 0)]), W(1, [(11, 1, 0, 0), (12, 2, 0, 0), (11, 3, 0, 0)]),
@@ -108,10 +132,13 @@ def rand_version(rng, pool):
     return (rng.choice(pool), rng.choice(PVALS), rng.choice(QVALS), 1 if rng.chance(1, 5) else 0)
 
 
-def rand_fault(rng, maxat=3):
+def rand_fault(rng, maxat=3, ids=(1, 2, 3)):
     if rng.chance(1, 2):
         return "none", 0
-    return rng.choice(FAULTS), rng.range(0, maxat)
+    f = rng.choice(FAULTS)
+    if f == "sinkreject":
+        return f, rng.choice(list(ids))
+    return f, rng.range(0, maxat)
 
 
 def rand_shape(rng):
@@ -152,13 +179,27 @@ def rand_case(rng, maxops=8):
                 ops.append(W(k, [rand_version(rng, pools[k]) for _ in range(rng.range(1, 4))]))
         elif x < 10:
             ops.append(SW([rand_version(rng, [100, 101]) for _ in range(rng.range(1, 2))]))
+        elif x < 12:
+            # the sink dataset is deleted under the job; runs while it is gone; re-created; runs; a fullsync
+            ops.append(dict(DROP))
+            for _ in range(rng.below(3)):
+                if rng.chance(1, 2):
+                    k = rng.below(n)
+                    ops.append(W(k, [rand_version(rng, pools[k]) for _ in range(rng.range(1, 3))]))
+                else:
+                    ops.append(R(rng.chance(1, 3), "none", 0))
+            ops.append(dict(CREATE))
+            for _ in range(rng.below(3)):
+                ops.append(R(False, "none", 0))
+            if rng.chance(3, 4):
+                ops.append(R(True, "none", 0))
         else:
-            f, at = rand_fault(rng)
+            f, at = rand_fault(rng, ids=pools[rng.below(n)])
             ops.append(R(rng.chance(1, 4), f, at))
     if rng.chance(4, 5):
         ops.append(R(rng.chance(1, 6), "none", 0))
         ops.append(R(False, "none", 0))
-    return mk(ops, batch=rng.range(1, 5), los=los, union=union)
+    return mk(ops, batch=rng.range(1, 5), los=los, union=union, handlers=rng.choice(HANDLER_SETS))
 
 
 BASE_HIST = [(1, 1, 0, 0), (2, 1, 0, 0), (1, 2, 0, 0), (3, 1, 0, 1), (2, 2, 0, 0)]
@@ -175,7 +216,10 @@ def enum_cases(rng, sample=None):
                     if full and f in ("diebefore", "dieafter"):
                         continue
                     for at in range(0, 7):
-                        if at * batch > len(BASE_HIST) + batch:
+                        if f == "sinkreject":
+                            if at not in (1, 2, 3):
+                                continue
+                        elif at * batch > len(BASE_HIST) + batch:
                             continue
                         ops = [W(0, BASE_HIST[:3]), W(0, BASE_HIST[3:])]
                         if len(los) > 1:
@@ -187,7 +231,7 @@ def enum_cases(rng, sample=None):
                             ops.append(R(False, "none", 0))
                             ops.append(W(0, [(1, 3, 0, 0), (3, 1, 0, 0)]))
                         ops += [R(full, f, at), R(False, "none", 0), R(False, "none", 0)]
-                        out.append(mk(ops, batch=batch, los=los, union=union))
+                        out.append(mk(ops, batch=batch, los=los, union=union, handlers=rng.choice(HANDLER_SETS)))
     if sample is not None and len(out) > sample:
         rng.shuffle(out)
         out = out[:sample]
@@ -236,17 +280,22 @@ def _term(c, o):
             ops.append("TW %d %s" % (op["k"], vlist(op["es"])))
         elif op["op"] == "sw":
             ops.append("TSW %s" % vlist(op["es"]))
+        elif op["op"] == "drop":
+            ops.append("TDrop")
+        elif op["op"] == "create":
+            ops.append("TCreate")
         else:
             r = runs[ri] if ri < len(runs) else {"outcome": "missing", "token": [], "sink": [], "sinklen": -1, "srclens": []}
             ri += 1
-            flt = FAULT_COQ[op["fault"]] + ("" if op["fault"] == "none" else " %d" % op["at"])
+            flt = FAULT_COQ[op["fault"]] + ("" if op["fault"] == "none" else " %s" % vlib.zlit(op["at"]))
             ops.append("TRun (mkTR %s (%s) %d%%N %s %s %s %s)" % (
                 vlib.coq_bool(op.get("full", False)), flt, OUTCOME.get(r["outcome"], 9),
                 zl(r.get("token") or []), vlist(r.get("sink") or []), vlib.zlit(r.get("sinklen", -1)),
                 zl(r.get("srclens") or [])))
     srcs = o.get("srcs") or []
-    return "mkTC %d %s %s %d %s %s" % (
+    return "mkTC %d %s %s %d %s %s %s" % (
         c["members"], vlib.coq_bool(c["union"]), vlib.coq_list([vlib.coq_bool(b) for b in c["los"]]), c["batch"],
+        vlib.coq_list([HANDLER_COQ[h] for h in c.get("handlers") or []]),
         vlib.coq_list(["\n   " + x for x in ops]), vlib.coq_list([vlist(f) for f in srcs]))
 
 
